@@ -343,8 +343,16 @@ func vfC14Run(c vfC14Case, ctx *vfCtx) *vfViolation {
 			dist := vfIVFPQDistance(ivIdx)
 			own := dist.Calculate(st, vw.Centroids[vw.ListOf[id]])
 			for ci := range vw.Centroids {
-				if d := dist.Calculate(st, vw.Centroids[ci]); d < own {
+				d := dist.Calculate(st, vw.Centroids[ci])
+				if d < own {
 					return vfFail("%s: id %d assigned to cluster %d (centroid distance %v) but centroid %d is nearer (%v)", when, id, vw.ListOf[id], own, ci, d)
+				}
+				// the ranking number is the metric's distance between vector and centroid (float64 reference)
+				if kind == Cosine && vfIsZero(vw.Centroids[ci]) {
+					continue
+				}
+				if want, tol := vfOracleDist(kind, vec, vw.Centroids[ci]); math.Abs(float64(d)-want) > 4*tol+1e-6*math.Abs(want) {
+					return vfFail("%s: the index ranks coarse centroid %d at %v for vector %d, but their %s distance is %v", when, ci, d, id, kind, want)
 				}
 			}
 		}
